@@ -73,6 +73,23 @@ void segmentCase(const JV& c, size_t k, std::string& out) {
 	}
 	ev.add("reloaded", reloaded);
 	out += ev.done() + "\n";
+	// a vertex in the middle: removes up to three consecutive triangles, wherever they lie in their segment's range
+	if (nt >= 3) {
+		NifFile mid(nif);
+		if (auto ms = byName(mid, "S")) {
+			std::vector<uint16_t> idx = {uint16_t(nt / 2 + 1)};
+			ContentIds idm;
+			std::string s1 = projectShape(mid, ms, idm);
+			bool all = mid.DeleteVertsForShape(ms, idx);
+			std::string t1 = projectShape(mid, ms, idm);
+			JObj e2;
+			JObj cj;
+			cj.add("case", (long long) k).add("ver", "FO4").add("after", "SetShapeSegments (middle vertex)");
+			e2.add("e", "delverts").raw("case", cj.done()).raw("I", u16json(idx)).add("allDeleted", all).add("checkParts", false).add("boneLimit", 1000000);
+			e2.raw("s", s1).raw("t", t1).add("reloaded", false);
+			out += e2.done() + "\n";
+		}
+	}
 	// "these facts still hold after vertex deletion": delete the last vertex (removes the last triangle) and an unused one
 	if (nt >= 1) {
 		std::vector<uint16_t> idx = {uint16_t(nt + 1)};
